@@ -16,6 +16,9 @@ THEOREMS = [
     "VK.C17_squares",
     "VK.C17_tiebreak_uniform",
     "VK.kernel_boosted_branch",
+    "VK.prob_seq_cons",
+    "VK.C17_rd_sequence",
+    "VK.C17_rd_two_seats",
 ]
 RULE = ("cases = RandomDictator / BoostedRandomDictator on random profiles (1-6 candidates, ties in first place, partial "
         "ballots, rational weights) x m x seeds: every call of random.choices / random.uniform / numpy.random.choice / "
